@@ -14,7 +14,7 @@ ID = "C12"
 LEVEL = "exploration"
 CASE_TIMEOUT = 60
 RULE = ("as C03 with timeframe_fill=True and gap-heavy streams (several gaps per stream, gaps of 1..12 buckets, gaps opening at "
-        "append boundaries); additionally consecutive labels exactly one timeframe apart and every inserted candle flat at the "
+        "append boundaries; dead-market stretches = REAL flat zero-volume candles shaped like fills, up to two buckets long, in 30% of the cases); additionally consecutive labels exactly one timeframe apart and every inserted candle flat at the "
         "previous close with volume 0. non-trivial: >= 2 real buckets, >= 1 merge and >= 1 inserted fill candle. distinct: case digest.")
 ASSUMPTIONS = c03.ASSUMPTIONS + ["gap / timeframe capped at 12 buckets per gap (filling is quadratic in the gap; a performance trait, not a property)",
                                  "Heikin-Ashi x gap filling is not combined (no property quantifier names it)"]
